@@ -53,6 +53,11 @@ func (m *F84Model) Distance(seq1 []uint8, seq2 []uint8, weights []float64) (floa
 	// Slightly negative distances (rounding) are set to 0, as in the other models:
 	// a negative distance is considered as not computable by DistMatrix
 	if dist < 0 {
+		// -Inf (logarithm of exactly 0: saturation) is not a rounding
+		// error: the distance is not defined
+		if math.IsInf(dist, -1) {
+			return math.NaN(), nil
+		}
 		return 0, nil
 	}
 	return dist, nil
